@@ -77,16 +77,8 @@ static void check_serialize(PDU& pdu, Ctx& ctx, const std::string& origin) {
     }
 }
 
-// PDUCacher<X> around a copy of the packet (X = the root's class): the wrapper promises the wrapped packet's serialisation
-static PDU* make_cacher(const PDU& pdu) {
-#define X(C) if (typeid(pdu) == typeid(Tins::C)) return new PDUCacher<Tins::C>(static_cast<const Tins::C&>(pdu));
-    VERIF_ENTRY_CLASSES(X)
-#undef X
-    return nullptr;
-}
-
 static void check_cacher(PDU& pdu, Ctx& ctx, unsigned how, const std::string& origin) {
-    std::unique_ptr<PDU> c(make_cacher(pdu));
+    std::unique_ptr<PDU> c(make_cacher_of(pdu));
     if (!c) return;
     ctx.label("pdu-cacher");
     std::string root = short_cls(demangled(typeid(pdu)));
